@@ -251,6 +251,9 @@ def format_work(mon, ctx, spec, rnd):
                     attach.call(f, a + b, p)
                     attach.call(f, a * b, p)
                     attach.call(f, a * 3 + 3599, p)
+        for x in (-0.0, 0.0, 5e-324, 1e-300, 1e-17, 4.9e-11, 5.1e-11, 360000.5, 59.99999999995, 3599.99999999999):      # edges of the float domain
+            for p in precs:
+                attach.call(f, x, p)
         for k in (0, 5, 65, 3600, 86400):          # int inputs
             for p in precs:
                 attach.call(f, k, p)
